@@ -62,16 +62,16 @@ func (g *vfGen) genC04() {
 	}
 	n := g.pick(400, 20000)
 	for i := 0; i < n; i++ {
-		k := 2 + g.rng.Intn(12)
+		k := 2 + g.intn(12)
 		var items []string
 		for j := 0; j < k; j++ {
 			var s string
-			if g.rng.Intn(4) == 0 {
+			if g.intn(4) == 0 {
 				s = g.jdocument()
 			} else {
-				s = dirty[g.rng.Intn(len(dirty))]
+				s = dirty[g.intn(len(dirty))]
 			}
-			items = append(items, qs[g.rng.Intn(len(qs))]+":"+vfHex([]byte(s)))
+			items = append(items, qs[g.intn(len(qs))]+":"+vfHex([]byte(s)))
 		}
 		g.emit("hist " + strings.Join(items, ","))
 	}
@@ -91,12 +91,12 @@ func (g *vfGen) genC04() {
 		}
 	}
 	for i := 0; i < g.pick(300, 10000); i++ {
-		k := 4 + g.rng.Intn(16)
+		k := 4 + g.intn(16)
 		var items []string
 		for j := 0; j < k; j++ {
-			items = append(items, vfHex(pool[g.rng.Intn(len(pool))]))
+			items = append(items, vfHex(pool[g.intn(len(pool))]))
 		}
-		g.emit(fmt.Sprintf("dhist %d %s", []int{0, 3072, 16, 64}[g.rng.Intn(4)], strings.Join(items, ",")))
+		g.emit(fmt.Sprintf("dhist %d %s", []int{0, 3072, 16, 64}[g.intn(4)], strings.Join(items, ",")))
 	}
 	// directed: an aborted separated-values scan directly before a clean table
 	{
@@ -113,11 +113,11 @@ func (g *vfGen) genC04() {
 	}
 	// inputs that differ only beyond the limit
 	for i := 0; i < g.pick(200, 5000); i++ {
-		base := pool[g.rng.Intn(len(pool))]
+		base := pool[g.intn(len(pool))]
 		if len(base) < 4 {
 			continue
 		}
-		l := 1 + g.rng.Intn(len(base))
+		l := 1 + g.intn(len(base))
 		a := append(append([]byte{}, base[:l]...), g.bytes(20)...)
 		b := append(append([]byte{}, base[:l]...), g.textBytes(30)...)
 		g.emit(fmt.Sprintf("dhist %d %s,%s,%s", l, vfHex(a), vfHex(b), vfHex(base[:l])))
